@@ -20,7 +20,8 @@ ver = json.load(open(os.path.join(src, "verify.json")))
 assert ver["demo_with_change_rc"] != 0 and ver["demo_without_change_rc"] == 0 and ver["suite_with_change_rc"] == 0, ver
 shutil.copy(os.path.join(src, "patch.diff"), os.path.join(dst, "patch.diff"))
 shutil.copy(os.path.join(src, "demo.rs"), os.path.join(dst, "demo.rs"))
-out = subprocess.run([os.path.join(HERE, "tools", "try_patch.py"), os.path.join(dst, "patch.diff")], cwd=HERE,
+_props = ["--props", os.environ["STORE_PROPS"]] if os.environ.get("STORE_PROPS") else []
+out = subprocess.run([os.path.join(HERE, "tools", "try_patch.py")] + _props + [os.path.join(dst, "patch.diff")], cwd=HERE,
                      stdout=subprocess.PIPE, stderr=subprocess.STDOUT, text=True).stdout
 caught = sorted(set((r, i) for r, _fn, i in re.findall(r"^   (C\d+\.[A-Za-z0-9-]+) \| (.*?) \| (.*?) \[", out, re.M)))
 props = sorted({r.split(".")[0] for r, _ in caught})
